@@ -340,6 +340,19 @@ example :
 theorem record_always_enabled (s : RecSt) (d : Nat) (b : List Nat) : (recStep s (.record d b)).isSome = true := by
   simp only [recStep]; split <;> rfl
 
+/-- record() takes a snapshot: the block is stored as a VALUE (the code copies the caller's array), so by
+`recorder_invariant` what reaches the file is what the array held when record() was called, whatever the caller
+does to its buffer afterwards.  (The harness overwrites / refills the caller's ndarray at every point relative
+to the flush; an implementation that queues the caller's own array disagrees with this model.) -/
+theorem record_takes_snapshot (s : RecSt) (d : Nat) (b : List Nat) (hb : b ≠ []) :
+    ∃ s', recStep s (.record d b) = some s' ∧ s'.shared d = s.shared d ++ [b] ∧ s'.recorded d = s.recorded d ++ b ∧
+      (∀ e, e ≠ d → s'.shared e = s.shared e) ∧ s'.loc = s.loc ∧ s'.file = s.file := by
+  simp only [recStep, hb, if_false]
+  refine ⟨_, rfl, ?_, ?_, ?_, rfl, rfl⟩
+  · simp [fupd]
+  · simp [fupd]
+  · intro e he; simp [fupd, he]
+
 /-- non-vacuity: a record lands between the writer's swap and its flush, another after the flush; all in the file, in order -/
 example :
     ((recRun RecSt.init [.record 0 [1, 2], .setAttr 0 7 9, .swap, .record 0 [3], .record 1 [8], .flush, .record 0 [4],
